@@ -114,6 +114,7 @@ class Link:
         self.alive = [False, False]
         self.cut_started = False
         self.abort_seen = False  # an abort() left (or may have left) an orphan end on this connection
+        self.dirty = False  # an operation was started on this link since the last quiescence
         self.history = set()  # 'close' | 'refusal' | 'abort' seen on this connection (for labels)
 
     @property
@@ -415,14 +416,22 @@ def run_world_case(ctx, case) -> None:
             return e.chan.kind
         return 'le' if is_le(e.obj) else 'cl'
 
-    def check_quiescent():
+    def check_quiescent(clean_only=False):
+        """Invariants at quiescence. With clean_only (called while operations are in flight): only the
+        links on which nothing was started since the last quiescence - their tables must not move."""
+        if clean_only:
+            def fail_(sig, what):
+                fail('independence/' + sig, what + ' [link with no operation since the last quiescence, '
+                     'while operations are in flight on another link]')
+        else:
+            fail_ = fail
         # (a) links: a started cut must have brought both ends down
         for link in links:
-            if link.cut_started and (link.alive[0] or link.alive[1]):
+            if not clean_only and link.cut_started and (link.alive[0] or link.alive[1]):
                 fail('link/cut_incomplete', 'a link disconnection was started but an end never reported the disconnection')
         # (b) waiters
         for op in list(pending):
-            if op.task.done():
+            if op.task.done() or clean_only:
                 continue
             link = op.link
             link_up = link is not None and link.epoch == op.epoch and link.up
@@ -451,6 +460,8 @@ def run_world_case(ctx, case) -> None:
         # (c) reported state against the history
         for c in chans:
             link = c.link
+            if clean_only and link.dirty:
+                continue
             link_up = link.epoch == c.epoch and link.up
             for e in c.ends:
                 if e is None:
@@ -458,13 +469,13 @@ def run_world_case(ctx, case) -> None:
                 r = report(e.obj)
                 if not link_up:
                     if r == 'open':
-                        fail(f'state/open_on_dead_link/{kind_of(e)}', 'a channel still reports open after its link went away')
+                        fail_(f'state/open_on_dead_link/{kind_of(e)}', 'a channel still reports open after its link went away')
                     continue
                 touched = any(x is not None and (x.aborted or x.close_started) for x in c.ends)
                 if c.close_ok and r == 'open':
-                    fail(f'state/open_after_close/{kind_of(e)}', 'a disconnect() of the channel completed but an end still reports open')
+                    fail_(f'state/open_after_close/{kind_of(e)}', 'a disconnect() of the channel completed but an end still reports open')
                 if c.expect_open and not touched and None not in c.ends and r != 'open':
-                    fail(f'state/not_open/{kind_of(e)}', f'a successfully opened, untouched channel on a live link reports {e.obj.state.name}')
+                    fail_(f'state/not_open/{kind_of(e)}', f'a successfully opened, untouched channel on a live link reports {e.obj.state.name}')
         # (d) tables
         w = st_['w']
         for node in range(1 + nper):
@@ -476,9 +487,11 @@ def run_world_case(ctx, case) -> None:
                     live[link.conns[side].handle] = (link, side)
             for name in ('channels', 'le_coc_channels', 'pending_credit_based_connections'):
                 for h, entries in getattr(m, name).items():
-                    if h not in live and entries:
+                    if h not in live and entries and not clean_only:
                         fail(f'tables/dead_link_entry/{name}', f'{name} still holds {len(entries)} entr(y/ies) for a connection that is gone')
             for h, (link, side) in live.items():
+                if clean_only and link.dirty:
+                    continue
                 mine = [e for e in ends if e.link is link and e.epoch == link.epoch and e.side == side]
                 by_obj = {id(e.obj): e for e in mine}
                 for name in ('channels', 'le_coc_channels'):
@@ -487,32 +500,32 @@ def run_world_case(ctx, case) -> None:
                     for cid, obj in table.items():
                         e = by_obj.get(id(obj))
                         if e is None:
-                            fail(f'tables/unknown_entry/{name}/{"le" if is_le(obj) else "cl"}',
+                            fail_(f'tables/unknown_entry/{name}/{"le" if is_le(obj) else "cl"}',
                                  f'{name} holds a channel (state {obj.state.name}) that was never reported to the application as open')
                         seen.add(id(obj))
                         r = report(obj)
                         if r == 'closed':
-                            fail(f'tables/stale_entry/{name}/{kind_of(e)}/{situation(e)}',
+                            fail_(f'tables/stale_entry/{name}/{kind_of(e)}/{situation(e)}',
                                  f'{name} still holds a channel that reports {obj.state.name}')
                         want = obj.source_cid if name == 'channels' else obj.destination_cid
                         if cid != want:
-                            fail(f'tables/key_mismatch/{name}/{kind_of(e)}',
+                            fail_(f'tables/key_mismatch/{name}/{kind_of(e)}',
                                  f'{name} files a channel under CID {cid}, but its {"source" if name == "channels" else "destination"} CID is {want}')
                     for e in mine:
                         if name == 'le_coc_channels' and (not is_le(e.obj) or is_orphan(e)):
                             # an orphan's remote CID may legitimately be re-used by the peer for a new channel
                             continue
                         if report(e.obj) == 'open' and id(e.obj) not in seen:
-                            fail(f'tables/missing_entry/{name}/{kind_of(e)}', f'an open channel is missing from {name}')
+                            fail_(f'tables/missing_entry/{name}/{kind_of(e)}', f'an open channel is missing from {name}')
                 # CIDs in use unique per connection
                 local = [e.obj.source_cid for e in mine if report(e.obj) == 'open']
                 if len(local) != len(set(local)):
-                    fail('cid/duplicate_local', f'two open channels of one connection share a local CID: {sorted(local)}')
+                    fail_('cid/duplicate_local', f'two open channels of one connection share a local CID: {sorted(local)}')
                 remote = [e.obj.destination_cid for e in mine if report(e.obj) == 'open' and is_le(e.obj) and not is_orphan(e)]
                 if len(remote) != len(set(remote)):
-                    fail('cid/duplicate_remote', f'two open credit-based channels of one connection share a remote CID: {sorted(remote)}')
+                    fail_('cid/duplicate_remote', f'two open credit-based channels of one connection share a remote CID: {sorted(remote)}')
             # (e) pending-request tables
-            if not any(not op.task.done() and op.what in ('open', 'refuse') for op in pending):
+            if not clean_only and not any(not op.task.done() and op.what in ('open', 'refuse') for op in pending):
                 if m.le_coc_requests:
                     fail('pending/le_coc_requests', f'le_coc_requests holds {len(m.le_coc_requests)} request(s) while no open is pending')
                 if any(v for v in m.pending_credit_based_connections.values()):
@@ -544,6 +557,7 @@ def run_world_case(ctx, case) -> None:
     def start(step, what, coro, link, side, **kw):
         task = loop.create_task(coro)
         cur['last_link'] = link
+        link.dirty = True
         op = Op(step, what, task, link, side, **kw)
         pending.append(op)
         task.add_done_callback(lambda _t, op=op: evq.append(('done', op)))
@@ -688,6 +702,7 @@ def run_world_case(ctx, case) -> None:
             except Exception as e:  # noqa: BLE001
                 fail(f'link/reconnect_failed/{type(e).__name__}', f'could not re-establish a link after its disconnection: {e!r}')
             labels.add('reconnect')
+            link.dirty = True
             return -1
         raise ValueError(what)
 
@@ -715,9 +730,14 @@ def run_world_case(ctx, case) -> None:
                         break
                     reap()
                     check_quiescent()
+                    for link in links:
+                        link.dirty = False
                 else:
                     loop.run_for(wait / 1000.0)
                     reap()
+                    if any(link.dirty for link in links) and any(not link.dirty and link.up for link in links):
+                        labels.add('independence_checked')
+                        check_quiescent(clean_only=True)
             else:
                 loop.run_for(QUIESCE)
                 if not loop.budget_hit:
@@ -1144,13 +1164,14 @@ def run_raw_case(ctx, case) -> None:
 def run(ctx) -> None:
     vloop.selftest()
     max_ops = ctx.pick(15, 40)
-    ctx.hyp('world', lambda c: run_world_case(ctx, c), world_cases(max_ops), max_examples=ctx.n(1300, 60000))
-    ctx.hyp('raw', lambda c: run_raw_case(ctx, c), raw_ops(max_ops), max_examples=ctx.n(500, 24000))
+    ctx.hyp('world', lambda c: run_world_case(ctx, c), world_cases(max_ops), max_examples=ctx.n(1100, 44000))
+    ctx.hyp('raw', lambda c: run_raw_case(ctx, c), raw_ops(max_ops), max_examples=ctx.n(400, 16000))
     for label in (
         'reopen_after_close', 'reopen_after_refusal', 'reopen_after_abort', 'concurrent_two_links',
         'cut_with_pending_op', 'cut_by_central', 'cut_by_peripheral', 'close_by_central', 'close_by_peripheral',
         'kind:le', 'kind:enh', 'kind:cl', 'transport:classic', 'links:2', 'links:3', 'drain_unsent', 'reconnect',
-        'raw_cid_reuse', 'dut_open_unanswered', 'abort', 'close_collision',
+        'raw_cid_reuse', 'dut_open_unanswered', 'abort', 'close_collision', 'independence_checked',
+        'closed_before_open_returned',
     ):
         ctx.floor(label, 10)
 
